@@ -377,7 +377,7 @@ def check(ctx: Ctx, col: Collector, tier: str) -> None:
     outs = run_v("TypeVarType")
     got = only_obj(outs)
     key = f"{vkey}::TypeVarType"
-    tv_ok = all((isinstance(o.value, Obj) and o.value.cls == "sds.TypeVarType" and o.value.get("name") == Sym("mypy_type.name"))
+    tv_ok = all((isinstance(o.value, Obj) and o.value.cls == "sds.TypeVarType" and mentions(o.value.get("name") or Const(0), "mypy_type.name"))
                 or (isinstance(o.value, App) and o.value.func == REC_V) for o in outs if o.kind == "return") and not any(o.kind == "raise" for o in outs)
     (col.ok if tv_ok else col.bad)("C05.CTOR-TABLE", key, repo.loc(VISITOR, vfi.node), f"{sorted(got)}",
                                    *([] if tv_ok else ["type variables are not mapped to TypeVarType(name) / the bound of Self"]))
